@@ -119,6 +119,7 @@ ReadBack(X) ==
              \* one read may name a position more than once (the value is returned once per request)
              R("get_subs", [subs |-> <<allsubs[Size(X)], allsubs[1], allsubs[Size(X)]>>]),
              R("get_linear", [idx |-> <<Size(X) - 1, 0, Size(X) - 1>>, form |-> "list"]),
+             R("linear_beyond", [idx |-> <<Size(X)>>]),
              R("get_linear", [idx |-> lin, form |-> "list"]),
              R("get_linear", [idx |-> RevSeq(lin), form |-> "list"]),
              R("get_linear", [idx |-> lin, form |-> "slice"]),
